@@ -124,7 +124,9 @@ pub fn generate(prop: &str, tier: Tier, rng: &mut Rng) -> Scenario {
         },
         "C14" => {
             match rng.below(10) {
-                0..=4 if rng.chance(1, if big { 100 } else { 250 }) => Scenario::StreamFault(StreamFault::generate_large(rng)),
+                // Structures of 0.5-1 MiB, and (separately) of tens of megabytes: few, because each costs seconds.
+                0..=4 if rng.chance(1, if big { 100 } else { 250 }) => Scenario::StreamFault(StreamFault::generate_large(rng, false)),
+                0..=4 if rng.chance(1, if big { 400 } else { 150 }) => Scenario::StreamFault(StreamFault::generate_large(rng, true)),
                 0..=4 => {
                     let max_len = if big { *rng.pick(&[300usize, 1200, 4096]) } else { *rng.pick(&[120usize, 400, 1000]) };
                     Scenario::StreamFault(StreamFault::generate(rng, max_len))
